@@ -91,6 +91,12 @@ Definition in_domain (c : case) : bool :=
 Definition same_shape_twin (c : case) : bool :=
   lst_eqb val_eqb (map shape (c_chain c)) (map shape (c_chain2 c))
   && fin_eqb (shape_fin (c_fin c)) (shape_fin (c_fin2 c)).
+(* the two clause trees gorm is modelled to build have the same shape (the hypothesis of theorem
+   c01_statement_text_value_independent) *)
+Definition built_same_shape (c : case) : bool :=
+  let tv := statement false (c_ti c) (c_chain c) (c_fin c) in
+  let tv2 := statement false (c_ti c) (c_chain2 c) (c_fin2 c) in
+  String.eqb (t_table (fst tv)) (t_table (fst tv2)) && val_eqb (shape (snd tv)) (shape (snd tv2)).
 Definition sentinels (c : case) : list la :=
   filter (fun s => (4 <=? length s)%nat)
          (map s2l (flat_map value_strings (c_chain c) ++ fin_strings (c_fin c)
@@ -122,4 +128,8 @@ Definition spec_holds (c : case) : bool :=
             && list_eqb scalar_eqb (o_vars (c_r c)) (expected_values true c)
             && no_value_in c (o_sql (c_r c)))) ).
 
-Definition check_case (c : case) : N := code_of (model_agrees c) (spec_holds c).
+(* tie of the construction half with [shape]: twins of equal source shape are built into clause
+   trees of equal shape *)
+Definition shape_tie (c : case) : bool := negb (same_shape_twin c) || built_same_shape c.
+
+Definition check_case (c : case) : N := code_of (model_agrees c && shape_tie c) (spec_holds c).
